@@ -51,6 +51,12 @@ Ltac ctor_via L :=
 
 
 
+Lemma ctor_lists3 x0 x1 x2 y0 y1 y2 :
+  CurveFitting___init__ Rops blank (VTuple [VList [VFloat x0; VFloat x1; VFloat x2];
+                                            VList [VFloat y0; VFloat y1; VFloat y2]])
+  = cf_of [x0; x1; x2] [y0; y1; y2].
+Proof. unfold blank. pyrunC. finish_ctor. Qed.
+
 Lemma ctor_tuples2 x0 x1 y0 y1 :
   CurveFitting___init__ Rops blank (VTuple [VTuple [VFloat x0; VFloat x1]; VTuple [VFloat y0; VFloat y1]])
   = cf_of [x0; x1] [y0; y1].
